@@ -1,6 +1,12 @@
 """Check runner for C13 (Definition edit histories) and C14 (derivations, aliasing, Context<->Definition)."""
+import json
+import os
+import re
+
 import common
 import run_trace
+
+_HIST = re.compile(r'^<<"HIST", (".*")>>$', re.M)
 
 ASSUME = [
     'TLC evaluates Definition.tla as written (tla2tools 1.8.0)',
@@ -62,8 +68,29 @@ def run(prop, tier, seed, replay=None):
                     f"universe mismatch: TLC {mc['distinct_states']} states / {mc['states_generated'] - 1} transitions, "
                     f"harness {pj.get('states')} states / {pj.get('edges')} edges")
 
-    return run_trace.run(prop, tier, seed, jobs_for(prop, tier), own=(prop + '.',), design=design, replay=replay,
-                         rule=rule, assumptions=ASSUME, post=post,
+    jobs = jobs_for(prop, tier)
+    prepare = None
+    if prop == 'C13':
+        num = 50 if tier == 'quick' else 1500
+
+        def prepare(work):
+            # spec -> code: behaviours of DefSys.tla chosen by TLC's simulator, replayed on the real object
+            r = common.run_tlc('MC_DefSys_thorough', 'SIM_DefSys.cfg', work, workers=1 if tier == 'quick' else 8,
+                               extra_args=['-simulate', f'num={num}', '-depth', '13', '-seed', str(seed + 7)],
+                               simulate=True, timeout=3000)
+            hists = _HIST.findall(r['out'])
+            if not r['completed'] or not hists:
+                raise common.MachineryError('TLC simulation of DefSys produced no behaviours:\n' + r['out'][-2000:])
+            with open(os.path.join(work, 'hists.jsonl'), 'w', encoding='utf-8') as f:
+                for h in hists:
+                    f.write(json.loads(h) + '\n')
+            return 0, 0, [{'module': 'DefSys (simulate)', 'cfg': 'SIM_DefSys.cfg', 'behaviours_emitted': len(hists),
+                           'depth': 12, 'wall_s': round(r['wall'], 1)}]
+        jobs.append(dict(name='tlc-simulated', script='rec_def_worker.py',
+                         args=['--prop', prop, '--mode', 'tlcwalks', '--cases', '{work}/hists.jsonl'],
+                         module='TraceDef', cfg='TraceDef.cfg'))
+    return run_trace.run(prop, tier, seed, jobs, own=(prop + '.',), design=design, replay=replay,
+                         rule=rule, assumptions=ASSUME, post=post, prepare=prepare,
                          extra_cov={'exhaustive': True,
                                     'exhaustive_part': 'one-step relation over the bounded universe (cross-checked '
                                                        'against the number of states/transitions TLC reaches in DefSys.tla)'})
